@@ -175,9 +175,20 @@ impl Receiver {
             fdt.1.update_expired_state(now);
         });
 
+        let object_timeout = self.config.object_timeout;
+        let instant = Instant::now();
         self.fdt_receivers.retain(|_, fdt| {
             let state = fdt.state();
-            state == fdtreceiver::FDTState::Complete || state == fdtreceiver::FDTState::Receiving
+            if state == fdtreceiver::FDTState::Receiving {
+                // An FDT instance is an object: release it when it is stalled
+                if let Some(object_timeout) = object_timeout.as_ref() {
+                    return !fdt
+                        .last_activity_duration_since(instant)
+                        .is_some_and(|duration| duration.gt(object_timeout));
+                }
+                return true;
+            }
+            state == fdtreceiver::FDTState::Complete
         });
     }
 
